@@ -55,8 +55,15 @@ pub fn static_oracle(
     };
     let mut ctx = StaticCtx::new(&out.gm, spec);
     if let Err(e) = ctx.check_module() {
+        let sig = if e.contains("only used recursively") {
+            "c02:param-only-used-recursively"
+        } else if e.contains("on a boxed field") {
+            "c02:compact-attr-on-boxed-field"
+        } else {
+            "c02:static"
+        };
         return Err(Failure::new(format!("generated module is not well-formed: {e}"))
-            .sig("c02:static")
+            .sig(sig)
             .with(json!({"case": decoded(), "tokens": out.tokens})));
     }
     // every resolved type path is closed and has the right arity, too
@@ -84,9 +91,78 @@ pub fn static_oracle(
     Ok(Some(out))
 }
 
+fn probe_boxed_compact() -> Result<(), Failure> {
+    use crate::program::*;
+    let prog = Program {
+        defs: vec![Def {
+            path: vec!["krate".into(), "BoxedCompact".into()],
+            params: vec![],
+            docs: vec![],
+            body: Body::Struct(Fields::Named(vec![FieldDef {
+                name: Some("a".into()),
+                ty: Ty::Ptr(PtrKind::Box, Box::new(Ty::Compact(Box::new(Ty::Prim(Prim::U32))))),
+                compact_attr: false,
+                docs: vec![],
+            }])),
+            config_inner: None,
+        }],
+        roots: vec![Ty::Def(0, vec![])],
+    };
+    let low = crate::lower::lower(&prog);
+    let text = prog.to_text();
+    let mut st = Stats::default();
+    let decoded = || json!({"program": text});
+    static_oracle(&low.registry, &SettingsSpec::default(), &mut st, &decoded).map(|_| ())
+}
+
+fn probe_recursive_only() -> Result<(), Failure> {
+    use crate::program::*;
+    let f = |n: &str, t: Ty| FieldDef {
+        name: Some(n.into()),
+        ty: t,
+        compact_attr: false,
+        docs: vec![],
+    };
+    let prog = Program {
+        defs: vec![Def {
+            path: vec!["krate".into(), "Node".into()],
+            params: vec![ParamDecl {
+                name: "T".into(),
+                skipped: false,
+                config: false,
+                compactable: false,
+            }],
+            docs: vec![],
+            body: Body::Struct(Fields::Named(vec![
+                f("next", Ty::Opt(Box::new(Ty::Ptr(PtrKind::Box, Box::new(Ty::Def(0, vec![Ty::Param(0)])))))),
+                f("marker", Ty::Phantom(Box::new(Ty::Param(0)))),
+            ])),
+            config_inner: None,
+        }],
+        roots: vec![Ty::Def(0, vec![Ty::Prim(Prim::U8)])],
+    };
+    let low = crate::lower::lower(&prog);
+    let text = prog.to_text();
+    let mut st = Stats::default();
+    let decoded = || json!({"program": text});
+    static_oracle(&low.registry, &SettingsSpec::default(), &mut st, &decoded).map(|_| ())
+}
+
 impl Property for C02 {
     fn id(&self) -> &'static str {
         "C02"
+    }
+    fn probes(&self) -> Vec<Probe> {
+        vec![Probe {
+            signature: "c02:param-only-used-recursively",
+            what: "struct Node<T> { next: Option<Box<Node<T>>>, marker: PhantomData<T> }",
+            run: Box::new(probe_recursive_only),
+        },
+        Probe {
+            signature: "c02:compact-attr-on-boxed-field",
+            what: "struct BoxedCompact { a: Box<Compact<u32>> }",
+            run: Box::new(probe_boxed_compact),
+        }]
     }
     fn rule(&self) -> String {
         "tape -> program from ALL strata (coincidental or not, associated types, two versions, look-alike names, recursion through \
@@ -114,6 +190,25 @@ impl Property for C02 {
             Stratum::random("polkadot_subregistries", tier.pick(200, 4_000), 96),
             Stratum::exhaustive("polkadot_full", 1),
         ]
+    }
+    /// rustc stage: modules from all strata (de-duplicated first when needed) and the whole Polkadot
+    /// module are compiled with codec derives
+    fn extra(&self, tier: Tier, seed: u64, stats: &mut Stats) -> Result<(), Failure> {
+        let (batches, size) = tier.pick((1, 60), (10, 200));
+        for b in 0..batches {
+            let (cases, counters) = crate::rustc_tier::make_cases(seed, 0xC02 + b as u64, size, false, 0);
+            for (k, v) in counters {
+                if !k.starts_with("label:") {
+                    stats.count(&format!("rustc_{k}"), v);
+                }
+            }
+            crate::rustc_tier::run_batch(&format!("C02-{b}"), &cases, false)?;
+            stats.count("rustc_cases_compiled", cases.len() as u64);
+        }
+        let pk = crate::rustc_tier::polkadot_case()?;
+        crate::rustc_tier::run_batch("C02-polkadot", &[pk], false)?;
+        stats.count("rustc_polkadot_module_compiled", 1);
+        Ok(())
     }
     fn eval(&self, stratum: &str, input: Input, stats: &mut Stats) -> Result<(), Failure> {
         match (stratum, input) {
